@@ -312,6 +312,10 @@ pub enum RawF {
     Hyb(u8, u16, Option<u16>, Box<RawF>),
     /// the attractor / steady-state patterns and near misses (variant selector)
     Pattern(u8, u16),
+    /// repeat an earlier generated sub-formula (of this formula or of an earlier one in the batch),
+    /// re-instantiated in the current scope: free variables mapped to variables in scope, bound
+    /// variables renamed where they would clash
+    Repeat(u16, u16),
 }
 
 #[derive(Clone, Copy, Debug)]
@@ -361,6 +365,7 @@ pub fn raw_f(depth: u32, size: u32) -> BoxedStrategy<RawF> {
         1 => any::<bool>().prop_map(RawF::Const),
         2 => any::<u16>().prop_map(RawF::Wild),
         1 => (0..8u8, any::<u16>()).prop_map(|(v, s)| RawF::Pattern(v, s)),
+        3 => (any::<u16>(), any::<u16>()).prop_map(|(a, b)| RawF::Repeat(a, b)),
     ];
     leaf.prop_recursive(depth, size, 2, |inner| {
         prop_oneof![
@@ -385,12 +390,73 @@ pub struct FEnv<'a> {
 
 pub fn resolve_f(raw: &RawF, env: &FEnv) -> F {
     let mut scope = vec![];
-    resolve_rec(raw, env, &mut scope)
+    let mut seen = vec![];
+    resolve_rec(raw, env, &mut scope, &mut seen)
+}
+
+/// Resolve several formulae of one batch; `Repeat` nodes may refer to sub-formulae of earlier ones.
+pub fn resolve_batch(raws: &[RawF], env: &FEnv) -> Vec<F> {
+    let mut seen = vec![];
+    raws.iter()
+        .map(|r| resolve_rec(r, env, &mut vec![], &mut seen))
+        .collect()
 }
 
 /// Resolve with some variables already in scope (for open sub-formulae).
 pub fn resolve_f_in_scope(raw: &RawF, env: &FEnv, scope: &mut Vec<String>) -> F {
-    resolve_rec(raw, env, scope)
+    let mut seen = vec![];
+    resolve_rec(raw, env, scope, &mut seen)
+}
+
+/// Re-instantiate `sub` in `scope`: free variables are mapped onto variables in scope, bound
+/// variables that would re-quantify a name in scope are renamed.  `None` if it does not fit.
+fn instantiate(sub: &F, scope: &[String], shift: usize, max_depth: usize) -> Option<F> {
+    let fv: Vec<String> = sub.free_vars().into_iter().collect();
+    if !fv.is_empty() && scope.is_empty() {
+        return None;
+    }
+    if scope.len() + sub.quant_depth() > max_depth {
+        return None;
+    }
+    let map: Vec<(String, String)> = fv
+        .iter()
+        .enumerate()
+        .map(|(i, v)| (v.clone(), scope[(i + shift) % scope.len()].clone()))
+        .collect();
+    fn rec(f: &F, map: &mut Vec<(String, String)>, scope: &mut Vec<String>) -> F {
+        let look = |v: &String, map: &Vec<(String, String)>| {
+            map.iter()
+                .rev()
+                .find(|(a, _)| a == v)
+                .map(|(_, b)| b.clone())
+                .unwrap_or_else(|| v.clone())
+        };
+        match f {
+            F::Const(_) | F::Prop(_) | F::Wild(_) => f.clone(),
+            F::Var(v) => F::Var(look(v, map)),
+            F::Un(op, a) => F::Un(*op, Box::new(rec(a, map, scope))),
+            F::Bin(op, a, b) => F::Bin(*op, Box::new(rec(a, map, scope)), Box::new(rec(b, map, scope))),
+            F::Hyb(HybOp::Jump, v, d, a) => {
+                F::Hyb(HybOp::Jump, look(v, map), d.clone(), Box::new(rec(a, map, scope)))
+            }
+            F::Hyb(op, v, d, a) => {
+                let name = if scope.contains(v) {
+                    fresh_binder(0, scope)
+                } else {
+                    v.clone()
+                };
+                map.push((v.clone(), name.clone()));
+                scope.push(name.clone());
+                let body = rec(a, map, scope);
+                scope.pop();
+                map.pop();
+                F::Hyb(*op, name, d.clone(), Box::new(body))
+            }
+        }
+    }
+    let mut map = map;
+    let mut scope = scope.to_vec();
+    Some(rec(sub, &mut map, &mut scope))
 }
 
 fn fresh_binder(sel: u16, scope: &[String]) -> String {
@@ -404,8 +470,29 @@ fn fresh_binder(sel: u16, scope: &[String]) -> String {
     format!("v{}", scope.len())
 }
 
-fn resolve_rec(raw: &RawF, env: &FEnv, scope: &mut Vec<String>) -> F {
+fn resolve_rec(raw: &RawF, env: &FEnv, scope: &mut Vec<String>, seen: &mut Vec<F>) -> F {
+    let out = resolve_node(raw, env, scope, seen);
+    if !matches!(out, F::Const(_) | F::Prop(_) | F::Var(_)) && seen.len() < 64 {
+        seen.push(out.clone());
+    }
+    out
+}
+
+fn resolve_node(raw: &RawF, env: &FEnv, scope: &mut Vec<String>, seen: &mut Vec<F>) -> F {
     match raw {
+        RawF::Repeat(sel, shift) => {
+            if seen.is_empty() {
+                return resolve_rec(&RawF::Var(*sel), env, scope, seen);
+            }
+            let start = idx(*sel, seen.len());
+            for off in 0..seen.len() {
+                let cand = &seen[(start + off) % seen.len()];
+                if let Some(f) = instantiate(cand, scope, *shift as usize, env.cfg.max_quant_depth) {
+                    return f;
+                }
+            }
+            resolve_rec(&RawF::Var(*sel), env, scope, seen)
+        }
         RawF::Const(b) => F::Const(*b),
         RawF::Prop(sel) => {
             if env.props.is_empty() {
@@ -416,7 +503,7 @@ fn resolve_rec(raw: &RawF, env: &FEnv, scope: &mut Vec<String>) -> F {
         }
         RawF::Var(sel) => {
             if scope.is_empty() {
-                resolve_rec(&RawF::Prop(*sel), env, scope)
+                resolve_rec(&RawF::Prop(*sel), env, scope, seen)
             } else {
                 F::Var(scope[idx(*sel, scope.len())].clone())
             }
@@ -425,10 +512,10 @@ fn resolve_rec(raw: &RawF, env: &FEnv, scope: &mut Vec<String>) -> F {
             if env.cfg.wild && !env.labels.is_empty() {
                 F::Wild(env.labels[idx(*sel, env.labels.len())].clone())
             } else {
-                resolve_rec(&RawF::Prop(*sel), env, scope)
+                resolve_rec(&RawF::Prop(*sel), env, scope, seen)
             }
         }
-        RawF::Un(op, a) => F::Un(UN_OPS[*op as usize % 7], Box::new(resolve_rec(a, env, scope))),
+        RawF::Un(op, a) => F::Un(UN_OPS[*op as usize % 7], Box::new(resolve_rec(a, env, scope, seen))),
         RawF::Bin(op, a, b) => {
             let mut op = BIN_OPS[*op as usize % 9];
             if !env.cfg.weak_until {
@@ -440,21 +527,21 @@ fn resolve_rec(raw: &RawF, env: &FEnv, scope: &mut Vec<String>) -> F {
             }
             F::Bin(
                 op,
-                Box::new(resolve_rec(a, env, scope)),
-                Box::new(resolve_rec(b, env, scope)),
+                Box::new(resolve_rec(a, env, scope, seen)),
+                Box::new(resolve_rec(b, env, scope, seen)),
             )
         }
         RawF::Hyb(op, vsel, dsel, a) => {
             let op = [HybOp::Bind, HybOp::Exists, HybOp::Forall, HybOp::Jump][*op as usize % 4];
             if op == HybOp::Jump {
                 if scope.is_empty() {
-                    return resolve_rec(a, env, scope);
+                    return resolve_rec(a, env, scope, seen);
                 }
                 let v = scope[idx(*vsel, scope.len())].clone();
-                return F::Hyb(HybOp::Jump, v, None, Box::new(resolve_rec(a, env, scope)));
+                return F::Hyb(HybOp::Jump, v, None, Box::new(resolve_rec(a, env, scope, seen)));
             }
             if scope.len() >= env.cfg.max_quant_depth {
-                return resolve_rec(a, env, scope);
+                return resolve_rec(a, env, scope, seen);
             }
             let v = fresh_binder(*vsel, scope);
             let d = match dsel {
@@ -464,13 +551,13 @@ fn resolve_rec(raw: &RawF, env: &FEnv, scope: &mut Vec<String>) -> F {
                 _ => None,
             };
             scope.push(v.clone());
-            let body = resolve_rec(a, env, scope);
+            let body = resolve_rec(a, env, scope, seen);
             scope.pop();
             F::Hyb(op, v, d, Box::new(body))
         }
         RawF::Pattern(variant, sel) => {
             if !env.cfg.patterns || scope.len() >= env.cfg.max_quant_depth {
-                return resolve_rec(&RawF::Var(*sel), env, scope);
+                return resolve_rec(&RawF::Var(*sel), env, scope, seen);
             }
             let v = fresh_binder(*sel, scope);
             let x = || F::var(&v);
